@@ -51,13 +51,13 @@ theorem gen_tristate_dispatch :
 
 /-! ## Clause 1 — a field that is absent is never written out -/
 
-/-- Known-finding class F40: META is non-empty and every META value is Absent (`emit` then appends the
+/-- Known-finding class F85: META is non-empty and every META value is Absent (`emit` then appends the
 empty text of `emit_meta`, i.e. a blank line).  `Gen.emitChecksMetaText` is regenerated from `emit`. -/
 def KF_meta_all_absent (d : Doc) : Bool := metaAllAbsent d.«meta»
 
 /-- MASTER: emitting a document = emitting the document with EVERY Absent site removed (top-level,
 block and section children at any depth, META entries, nested META entries, list items and inline-map
-values at any depth), for every renderer.  Partial: outside F40 (or once `emit` checks the META text). -/
+values at any depth), for every renderer.  Partial: outside F85 (or once `emit` checks the META text). -/
 theorem C18_absent_silent_partial (E : Env) (d : Doc)
     (h : Gen.emitChecksMetaText = true ∨ KF_meta_all_absent d = false) :
     emitLines E (pruneDoc d) = emitLines E d := by
@@ -114,7 +114,7 @@ theorem C18_absent_silent_nested_meta (E : Env) (pre post p1 p2 : List (Str × V
     rw [← metaLines_prune E (pre ++ (k, .dict (p1 ++ (j, .absent) :: p2)) :: post), pruneMeta_nested_site, metaLines_prune]
   simp [metaBlock, h]
 
-/-- site: META entry.  Partial (F40): the entry must not be the only one, unless `emit` checks the text. -/
+/-- site: META entry.  Partial (F85): the entry must not be the only one, unless `emit` checks the text. -/
 theorem C18_absent_silent_meta_partial (E : Env) (pre post : List (Str × Val)) (k : Str)
     (hg : Gen.emitChecksMetaText = true ∨ pre ++ post ≠ []) :
     metaBlock E (pre ++ (k, .absent) :: post) = metaBlock E (pre ++ post) := by
@@ -134,7 +134,7 @@ theorem C18_absent_silent_meta_partial (E : Env) (pre post : List (Str × Val)) 
       | cons _ _ => rfl
     simp [h1, h2]
 
-/-- F40 on its witness: with the code as it stands the only-entry case DOES differ (a blank line). -/
+/-- F85 on its witness: with the code as it stands the only-entry case DOES differ (a blank line). -/
 theorem C18_KF_meta_all_absent (hcode : Gen.emitChecksMetaText = false) (E : Env) (k : Str) :
     metaBlock E [(k, .absent)] = [[]] ∧ metaBlock E [] = [] ∧ KF_meta_all_absent { «meta» := [(k, .absent)] } = true := by
   simp [metaBlock, metaLines, hcode, KF_meta_all_absent, metaAllAbsent, pruneMeta]
@@ -418,12 +418,12 @@ theorem C18_KF_cli_delete (d : Doc) (k : Str) (hk : classify k = .top) :
   · simp [cliApply, cliChange, hk, cliSetTop, lookupTop_setTop_self, deleteSentinel, rawVal, rawPairs]
   · simp [applyChanges, applyChange, hk, hdel, lookupTop_delTop_self]
 
-/-- companion of F28 (class kf_cli_meta_replace): the CLI REPLACES META by the request dict. -/
+/-- F82 (class kf_cli_meta_replace, same root cause as F28): the CLI REPLACES META by the request dict. -/
 theorem C18_KF_cli_meta_replace (d : Doc) (key : Str) (pairs : List (Str × JVal)) (hk : classify key = .metaWhole) :
     (cliApply d [(key, .obj pairs)]).«meta» = rawPairs pairs := by
   simp [cliApply, cliChange, hk]
 
-/-- companion of F28 (class kf_cli_container_value): lists reach the AST as raw Python lists. -/
+/-- F81 (class kf_cli_container_value, same root cause as F28): lists reach the AST as raw Python lists. -/
 theorem C18_KF_cli_raw_list (d : Doc) (k : Str) (items : List JVal) (hk : classify k = .top) :
     lookupTop k (cliApply d [(k, .list items)]).nodes = some (.py (.list items))
       ∧ lookupTop k (applyChanges d [(k, .list items)]).nodes = some (.list (normalizeList items)) := by
@@ -431,7 +431,7 @@ theorem C18_KF_cli_raw_list (d : Doc) (k : Str) (items : List JVal) (hk : classi
   · simp [cliApply, cliChange, hk, cliSetTop, lookupTop_setTop_self, rawVal]
   · simp [applyChanges, applyChange, hk, isDel, normalize, lookupTop_setTop_self]
 
-/-- F39 (kf_map_relayout) in the emitter model: a map written by a value request (`InlineMap`, one line)
+/-- F84 (kf_map_relayout) in the emitter model: a map written by a value request (`InlineMap`, one line)
 and the same map as the parser returns it (a list of single-pair maps) have different layouts. -/
 theorem C18_KF_map_relayout (E : Env) (k : Str) (ind : Nat) (hk : k.head? ≠ some '\n') :
     emitValue E (.map [(k, .null)]) ind ≠ emitValue E (.list [.map [(k, .null)]]) ind := by
@@ -479,7 +479,7 @@ example : isDel deleteSentinel = true ∧ isDel (.obj [("$op".toList, .str "dele
     ∧ isDel (.obj [("op".toList, .str "DELETE".toList)]) = false ∧ isDel (.list [deleteSentinel]) = false
     ∧ isDel (.obj [("x".toList, .int 1), ("$op".toList, .str "DELETE".toList)]) = true := by decide
 
--- C18_absent_silent: a document with Absent at six kinds of site, not in the F40 class
+-- C18_absent_silent: a document with Absent at six kinds of site, not in the F85 class
 def exAbsentDoc : Doc :=
   { name := "D".toList, «meta» := [("X".toList, .absent), ("Y".toList, .dict [("a".toList, .absent), ("b".toList, .int 1)])],
     nodes := [.assign [] "A".toList .absent none,
